@@ -44,7 +44,8 @@ def render_cue(c) -> str:
         idx = ",".join(f"{i.number}:{i.n_minutes}:{i.n_seconds}:{i.n_frames}" for i in t.indices)
         unp = ",".join(hxs(u) for u in t.unparsed)
         parts.append(f"track {t.number} {hxs(t.mode)} {title} [{idx}] [{unp}]")
-    return " ; ".join(parts)
+    # same shape as the driver prints, also for a sheet with a FILE line and no track
+    return parts[0] + " ; " + " ; ".join(parts[1:])
 
 
 HANGS = [0]
